@@ -52,6 +52,13 @@ def make_input(kind, shape, seed, dtype=torch.float64):
         flat[int(torch.randint(0, flat.numel(), (1,), generator=g))] = 1e6
     elif kind == 'ramp':
         x = torch.arange(int(np.prod(shape)), dtype=torch.float64).reshape(*shape) / 7.0 + 1.0
+    elif kind == 'stripes':
+        # oriented, image-amplitude texture: 2-pixel-wide diagonal stripes 128 +- 100
+        idx = torch.arange(shape[-1]).reshape(1, -1) + (torch.arange(shape[-2]).reshape(-1, 1) if len(shape) >= 4 else 0)
+        pat = ((idx // 2) % 2).to(torch.float64) * 200.0 + 28.0
+        x = pat.expand(*shape).clone() if len(shape) >= 4 else pat.reshape(-1)[:shape[-1]].expand(*shape).clone()
+    elif kind == 'offset':
+        x = torch.randn(*shape, generator=g, dtype=torch.float64) + 1000.0
     elif kind == 'small':
         x = torch.randn(*shape, generator=g, dtype=torch.float64) * 1e-5
     elif kind == 'zeros':
